@@ -33,6 +33,7 @@ POOL = {
     "M5": ([("A", "op", "E1", "2", None), ("B", "op", "E1", "2", None), ("C", "op", "E1", "2", "1/2")],
            [("A", "B", "2"), ("B", "C", "1/2"), ("A", "C", "3/2")]),
     "M7": ([("A", "op", "E1", "2", None), ("B", "op", "E2", "3", None)], [("A", "B", "2")]),   # D26: two templates, one name
+    "M8": ([("A", "op", "E1", "1099511627777/549755813888", None)], []),      # k = 2 + 2^-39: differs from M0 beyond the 8th digit
 }
 MODELS = sorted(POOL)
 # models whose equation calls a user-supplied helper passed through the public `ops=` keyword (outside the Coq model: these are
@@ -53,11 +54,13 @@ nd:
   base: NodeTemplate
   operators:
     - op
+nd2:
+  base: nd
 net:
   base: CircuitTemplate
   nodes:
     A: nd
-    B: nd
+    B: nd2
   edges:
     - [A/op/x, B/op/r, null, {weight: 2.0}]
 """
@@ -80,6 +83,69 @@ def build(m):
         nd[lab] = NodeTemplate(name=lab, operators={ops[key]: {'k': float(Fr(ov))}} if ov is not None else [ops[key]], path=None)
     es = [(f"{s}/{opof[s]}/x", f"{t}/{opof[t]}/r", None, {'weight': float(Fr(w))}) for s, t, w in edges]
     return CircuitTemplate(name="net", nodes=nd, edges=es, path=None)
+
+# ---- constants stream: same-named operators (`oc`) that differ only subtly in an array-valued constant
+def karray(v):
+    import numpy as np
+    if v == "K0":     # long protocol, pulse in the middle
+        a = np.zeros(1500); a[600:900] = 2.0; return a
+    if v == "K1":     # differs from K0 only in the middle of a > 1000-element array
+        a = np.zeros(1500); a[300:500] = -1.0; return a
+    if v == "K2":
+        return np.ones(4)
+    if v == "K3":     # differs from K2 only beyond the 8th significant digit
+        a = np.ones(4); a[1] = 1.0 + 2.0 ** -40; return a
+    if v == "K4":     # differs from K2 only in dtype
+        return np.ones(4, dtype=np.int64)
+    if v == "K5":     # differs from K0 only in length (same head, same tail)
+        a = np.zeros(1501); a[600:900] = 2.0; return a
+    if v == "K6":
+        a = np.ones(4); a[0] = 0.0; return a
+    if v == "K7":     # differs from K6 only in the sign of zero
+        a = np.ones(4); a[0] = -0.0; return a
+    if v == "K8":     # one element in the middle of a long array, beyond the 8th digit
+        a = np.zeros(1500) + 1.0; a[750] = 1.0 + 2.0 ** -40; return a
+    if v == "K9":
+        return np.zeros(1500) + 1.0
+    raise ValueError(v)
+KVARS = ["K0", "K1", "K2", "K3", "K4", "K5", "K6", "K7", "K8", "K9", "KN"]
+
+def kbuild(variants):
+    """one node per variant (A, B), each with its OWN OperatorTemplate object named `oc`"""
+    from pyrates import OperatorTemplate, NodeTemplate, CircuitTemplate
+    nd = {}
+    for lab, v in zip("AB", variants):
+        if v == "KN":     # right-hand side that is a bare number: ExpressionParser's dummy-constant path
+            op = OperatorTemplate(name="oc", path=None, equations=["d/dt * x = 0.5"], variables={'x': 'output(0.5)'})
+        else:
+            a = karray(v)
+            op = OperatorTemplate(name="oc", path=None, equations=["d/dt * x = -x + index(c, t)"],
+                                  variables={'x': 'output(0.5)', 'c': {'vtype': 'constant', 'value': a, 'shape': a.shape, 'dtype': 'float'},
+                                             't': {'vtype': 'variable', 'value': 0, 'dtype': 'int', 'shape': ()}})
+        nd[lab] = NodeTemplate(name=lab, operators=[op], path=None)
+    return CircuitTemplate(name="net", nodes=nd, edges=[], path=None)
+
+def kecho(variants, o, raw):
+    """the clause `never inherit ... values ... from earlier ones`, directly: every node's constant argument is the array its own
+    operator declared (as float64, bit for bit) and dy = -x + c[0] (0.5 for KN)"""
+    import numpy as np
+    from pyr import frac
+    names, dy = o["names"], o["dy"]
+    cargs = [r for n, r in zip(names, raw) if n.endswith("/oc/c")]
+    want = [v for v in variants if v != "KN"]
+    if len(cargs) != len(want) or len(dy) != len(variants):
+        return False
+    for got, v in zip(cargs, want):
+        a = np.asarray(karray(v), dtype=np.float64)
+        g = np.asarray(got, dtype=np.float64).reshape(-1)
+        if g.shape != a.shape or g.tobytes() != a.tobytes():      # bit for bit: also the sign of zero
+            return False
+    for i, v in enumerate(variants):
+        y = Fr(i + 1, 4)
+        exp = Fr(1, 2) if v == "KN" else -y + Fr(float(np.asarray(karray(v), dtype=np.float64)[0]))
+        if Fr(dy[i]) != exp:
+            return False
+    return True
 
 def call(f, a):
     """default backend: the function returns dy; Fortran (f2py): dy is an in/out argument and nothing is returned"""
@@ -154,6 +220,27 @@ def run_steps(case, fresh):
                 o, fn = observe(c, op[2], op[3], op[4], extra=extra)
                 funcs.append(fn)
                 return dict(ok="compile", **o)
+            if kind == "kcompile":      # [kind, [variants], False, clear, in_place, to_file]
+                c = kbuild(op[1]); handles.append(c)
+                o, fn = observe(c, False, op[3], op[4], extra=dict(to_file=op[5]))
+                funcs.append(fn)
+                o["echo"] = kecho(op[1], o, fn[1][3:])
+                o["vals"] = [v if len(v) <= 8 else v[:3] + [f"... {len(v)} values, sha " + __import__("hashlib").sha1(",".join(v).encode()).hexdigest()[:12]] + v[-3:]
+                             for v in o["vals"]]
+                return dict(ok="compile", **o)
+            if kind in ("jcompile", "jrun"):      # [kind, model, precision, clear]
+                c = build(op[1]); handles.append(c)
+                if kind == "jrun":
+                    res = c.run(simulation_time=0.5, step_size=0.125, solver='euler', backend='jax', vectorize=True, clear=op[3], in_place=False,
+                                verbose=False, float_precision=op[2], file_name='m', outputs={'o': f"A/{POOL[op[1]][0][0][1]}/x"})
+                    return dict(ok="compile", names=[], vals=[], smap=[], dy=fracs(np.asarray(res.values, dtype=np.float64)))
+                f, args, names, smap = c.get_run_func('f', 0.125, file_name='m', backend='jax', solver='euler', vectorize=True,
+                                                      float_precision=op[2], in_place=False, clear=op[3], verbose=False)
+                a = list(args); a[1] = np.array([0.25 * (i + 1) for i in range(len(args[1]))], dtype=np.asarray(args[1]).dtype)
+                dy = fracs(np.asarray(f(*a), dtype=np.float64))
+                funcs.append((lambda *aa, _f=f: np.asarray(_f(*aa), dtype=np.float64), a, dy))
+                return dict(ok="compile", names=list(names[3:]), vals=[fracs(np.asarray(v, dtype=np.float64)) for v in args[3:]], smap=[], dy=dy,
+                            dtype=str(np.asarray(f(*a)).dtype))
             if kind == "fcompile":
                 c = build(op[1]); handles.append(c)
                 o, fn = observe(c, False, op[3], False, backend='fortran', file=op[2])
@@ -199,7 +286,8 @@ def run_steps(case, fresh):
     finally:
         if not fresh:
             reset_pyrates()
-    return dict(final=final, trace=[t["err"] if "err" in t else "" for t in trace], stable=stable)
+    echo_fail = [i for i, t in enumerate(trace + [final]) if t.get("echo") is False]
+    return dict(final=final, trace=[t["err"] if "err" in t else "" for t in trace], stable=stable, echo_fail=echo_fail)
 
 def impl(case):
     return run_steps(case, fresh=False)
@@ -255,7 +343,8 @@ def gen_case(rng, maxlen=10):
     return dict(hist=hist, final=final)
 
 def is_ops(case):
-    return any((o[0] in ("compile", "run", "jac") and o[1] in HPOOL) or o[0] == "dcompile" for o in case["hist"] + [case["final"]])
+    return any((o[0] in ("compile", "run", "jac") and o[1] in HPOOL) or o[0] in ("dcompile", "kcompile", "jcompile", "jrun")
+               for o in case["hist"] + [case["final"]])
 
 def is_inputs(case):
     return any(o[0] == "cin" for o in case["hist"] + [case["final"]])
@@ -304,6 +393,45 @@ def deco_directed():
     return [dict(hist=[D("M0", "2")], final=D("M0", "3", False)), dict(hist=[D("M0", "3")], final=D("M2", "2", False)),
             dict(hist=[D("M2", "2", False), ["mclear", 0]], final=D("M2", "3", False))]
 
+def is_consts(case):
+    return any(o[0] == "kcompile" for o in case["hist"] + [case["final"]])
+
+def is_jax(case):
+    return any(o[0] in ("jcompile", "jrun") for o in case["hist"] + [case["final"]])
+
+KPAIRS = [("K0", "K1"), ("K2", "K3"), ("K2", "K4"), ("K0", "K5"), ("K6", "K7"), ("K9", "K8"), ("K2", "KN")]
+def gen_consts_case(rng):
+    """same-named operators with subtly different array constants, mostly WITHOUT a clear in between; judged by the echo oracle"""
+    a, b = rng.choice(KPAIRS)
+    if rng.random() < 0.5:
+        a, b = b, a
+    def K(vs, clr=False):
+        return ["kcompile", vs, False, clr, rng.random() < 0.3, rng.random() < 0.8]
+    hist = [K([a], rng.random() < 0.25)]
+    if rng.random() < 0.3:
+        hist.append(rng.choice([["cfc", True, False], ["cfc", False, True], ["mclear", 0], K([rng.choice(KVARS)])]))
+    final = K([b]) if rng.random() < 0.7 else K([b, a])
+    return dict(hist=hist, final=final)
+
+def consts_directed():
+    K = lambda vs, clr=False, tf=True: ["kcompile", vs, False, clr, False, tf]
+    return [dict(hist=[K([a])], final=K([b])) for a, b in KPAIRS] + [dict(hist=[], final=K([a, b])) for a, b in KPAIRS[:4]] + \
+           [dict(hist=[K(["K0"], True)], final=K(["K1"], False, False))]
+
+JMODELS = ["M0", "M2", "M8"]
+def gen_jax_case(rng):
+    """jax compilations and runs with both precisions and different parameter values; every step cleared (disciplined)"""
+    hist = [[rng.choice(["jcompile", "jrun"]), rng.choice(JMODELS), rng.choice(["float64", "float32"]), True] for _ in range(rng.randint(1, 3))]
+    return dict(hist=hist, final=[rng.choice(["jcompile", "jrun"]), rng.choice(JMODELS), rng.choice(["float64", "float32"]), False])
+
+def jax_directed():
+    return [dict(hist=[["jcompile", "M8", "float64", True], ["jcompile", "M0", "float32", True]], final=["jcompile", "M8", "float64", False]),
+            dict(hist=[["jrun", "M0", "float64", True]], final=["jrun", "M2", "float64", False]),
+            # the LAST construction is a float32 one: functions returned earlier for float64 models must keep computing at 64 bits
+            dict(hist=[["jcompile", "M8", "float64", True]], final=["jcompile", "M0", "float32", False]),
+            dict(hist=[["jcompile", "M8", "float64", False], ["mclear", 0], ["jrun", "M2", "float32", True]], final=["jcompile", "M2", "float32", False]),
+            dict(hist=[["jrun", "M8", "float64", True], ["jrun", "M0", "float32", True]], final=["jrun", "M8", "float64", False])]
+
 def is_fortran(case):
     return any(o[0] == "fcompile" for o in case["hist"] + [case["final"]])
 
@@ -329,7 +457,7 @@ def disciplined_py(case):
     """syntactic guard of the ops= stream: every compile/run asks for clear=True or is directly followed by circuit.clear() on it"""
     nh, h = 0, case["hist"]
     for i, o in enumerate(h):
-        if o[0] in ("compile", "run", "jac", "dcompile", "yload"):
+        if o[0] in ("compile", "run", "jac", "dcompile", "kcompile", "jcompile", "jrun", "yload"):
             nh += 1
             if not o[3] and not (i + 1 < len(h) and h[i + 1] == ["mclear", nh - 1]):
                 return False
@@ -470,7 +598,9 @@ def evaluate(ctx, cases, tag):
         for i, r in zip(part, run_impl(ctx, "c13", "impl", [cases[i] for i in part], nworkers=len(part), per_case_timeout=240)):
             outs[i] = r
     crashed = [i for i, r in enumerate(outs) if "final" not in r]
-    fresh = fresh_results(ctx, [c["final"] for c in cases])
+    # constants stream: judged by the echo oracle; compared with a fresh interpreter only when the history is disciplined
+    needs_fresh = [c for c in cases if not (is_consts(c) and not disciplined_py(c))]
+    fresh = fresh_results(ctx, [c["final"] for c in needs_fresh])
     good_all = [i for i in range(len(cases)) if i not in crashed]
     good = [i for i in good_all if not is_ops(cases[i])]          # the cases the Coq model covers
     badI, badS, gC, gT, gF = model_compare(ctx, [cases[i] for i in good], [outs[i] for i in good], tag) if good else ([], [], [], [], [])
@@ -483,7 +613,7 @@ def evaluate(ctx, cases, tag):
     for i in gF:
         guard_viol.setdefault(good[i], []).append("FortranClean")
     for i in good_all:
-        if is_ops(cases[i]) and not disciplined_py(cases[i]):
+        if is_ops(cases[i]) and not is_consts(cases[i]) and not disciplined_py(cases[i]):
             guard_viol[i] = ["CachesClean"]
     good = good_all
     # compilations with inputs: the model only carries the counters; where it does not reproduce which steps raise, its guard
@@ -491,7 +621,12 @@ def evaluate(ctx, cases, tag):
     unmodelled = [i for i in badI if is_inputs(cases[i])]
     badI = [i for i in badI if i not in unmodelled]; badS = [i for i in badS if i not in unmodelled]
     good = [i for i in good if i not in unmodelled]
-    leak = [i for i in good if differs(outs[i], fresh[canon(cases[i]["final"])])]
+    def judged(i):
+        c, o = cases[i], outs[i]
+        if is_consts(c):      # every compilation of the history must hand its own operators' constants to its function
+            return bool(o.get("echo_fail")) or (disciplined_py(c) and differs(o, fresh[canon(c["final"])]))
+        return differs(o, fresh[canon(c["final"])])
+    leak = [i for i in good if judged(i)]
     fresh_bad = [k for k, v in fresh.items() if "err" in v and v["err"] == "fresh-interpreter-failed"]
     return dict(unmodelled=unmodelled, outs=outs, crashed=crashed, fresh=fresh, badI=badI, badS=sorted(set(badS) | set(leak)), leak=leak,
                 guard_viol=guard_viol, fresh_bad=fresh_bad)
@@ -528,7 +663,9 @@ def check(ctx):
         cases = ([dict(hist=c["hist"], final=c["final"]) for c in corpus] + [dict(hist=[], final=f) for f in all_finals()] + fort +
                  [gen_case(ctx.rng) for _ in range(n)] + ops_directed() + [gen_ops_case(ctx.rng) for _ in range(6 if ctx.tier == "quick" else 80)] +
                  deco_directed() + [gen_deco_case(ctx.rng) for _ in range(4 if ctx.tier == "quick" else 40)] +
-                 inputs_directed() + [gen_inputs_case(ctx.rng) for _ in range(16 if ctx.tier == "quick" else 200)])
+                 inputs_directed() + [gen_inputs_case(ctx.rng) for _ in range(16 if ctx.tier == "quick" else 200)] +
+                 consts_directed() + [gen_consts_case(ctx.rng) for _ in range(8 if ctx.tier == "quick" else 120)] +
+                 jax_directed() + [gen_jax_case(ctx.rng) for _ in range(2 if ctx.tier == "quick" else 30)])
     ev = evaluate(ctx, cases, "main")
     outs, gv = ev["outs"], ev["guard_viol"]
     if ev["fresh_bad"]:
@@ -563,6 +700,7 @@ def check(ctx):
             broken="correspondence outside the guards: the real code no longer does with its caches what Caches.step says "
                    "(the history is guard-violating, so the result may differ from a fresh process, but not in another way than modelled)",
             case=cases[i], implementation_output=outs[i], cases_affected=len(strict), diagnostic=show(cases[i]))))
+    ctx.note(f"streams: constants (echo oracle) {sum(1 for c in cases if is_consts(c))}, jax {sum(1 for c in cases if is_jax(c))}")
     ctx.note(f"streams: inputs= {sum(1 for c in cases if is_inputs(c))} (unmodelled there: {len(ev['unmodelled'])}), decorator= "
              f"{sum(1 for c in cases if any(o[0] == 'dcompile' for o in c['hist'] + [c['final']]))}; model mismatches outside the guards: {len(strict)}")
     nt = {canon(c) for c in cases if overlap(c)}
@@ -585,10 +723,14 @@ def check(ctx):
                         "templates with one name, 1/2/3 nodes) run in one process without reset, final model compared with a fresh interpreter; "
                         "plus real-code-only streams of disciplined histories: models whose equation calls a helper passed through ops= (same "
                         "function text, different helper definitions) and compilations with one decorator and different decorator_kwargs; plus an inputs= "
-                        "stream (extrinsic input on a same-named variable, one-flag clear_frontend_caches calls; guard from the model's counters); non-trivial = the history contains >= 1 earlier compilation (it shares the file name and the node label `A`, mostly also "
+                        "stream (extrinsic input on a same-named variable, one-flag clear_frontend_caches calls; guard from the model's counters); a constants stream "
+                        "(same-named operators whose array constants differ only in the middle of a >1000-element array, beyond the 8th digit, in dtype, in length, in "
+                        "the sign of zero; mostly WITHOUT clearing; oracle: every function gets its own operators' constants bit for bit); a jax stream (float64/float32, "
+                        "other parameter values, get_run_func and run, vs fresh interpreters); non-trivial = the history contains >= 1 earlier compilation (it shares the file name and the node label `A`, mostly also "
                         "the operator name or the structural class, with the final model); distinct = distinct canonical JSON",
                    samples=[c for c in cases if overlap(c)][:3], extra=dict(fixed_clear=fixed_clear(), fixed_op_cache_key=fixed_op_cache_key(), fixed_yaml_copy=fixed_yaml_copy(), fixed_D29=fixed_D29(), input_distribution=dict(hist, ops_stream=sum(1 for c in cases if is_ops(c)), inputs_stream=sum(1 for c in cases if is_inputs(c)),
-                                                           inputs_unmodelled=len(ev["unmodelled"]),
+                                                           inputs_unmodelled=len(ev["unmodelled"]), consts_stream=sum(1 for c in cases if is_consts(c)),
+                                                           jax_stream=sum(1 for c in cases if is_jax(c)),
                                                            fortran_stream=sum(1 for c in cases if is_fortran(c))),
                             impl_vs_model_mismatches=len(ev["badI"]), result_differs_from_fresh=len(ev["leak"])),
                    trusted_base=["the fresh interpreter (subprocess, PYTHONPATH=REPO, own cwd) is the reference for 'first model handled by the process'",
